@@ -17,6 +17,7 @@ import (
 	"runtime"
 	"strings"
 	"sync"
+	"sync/atomic"
 	"time"
 
 	"google.golang.org/protobuf/proto"
@@ -26,6 +27,9 @@ import (
 )
 
 var errVregInjected = errors.New("verif: injected registry failure")
+
+// vregStuck counts threads abandoned by the driver; harnesses stop generating schedules once it is > 2
+var vregStuck atomic.Int32
 
 // ---------------------------------------------------------------- controlled threads
 
@@ -115,6 +119,9 @@ func (t *vregThread) advance(ok bool) (vregEvent, error) {
 		t.Last = ev
 		return ev, nil
 	case <-time.After(20 * time.Second):
+		// the thread is stuck off a scheduling point (e.g. it joined another thread's single flight): give it up
+		t.Last = vregEvent{Finished: true, Result: "stuck"}
+		vregStuck.Add(1)
 		return vregEvent{}, errors.New("thread neither reached a scheduling point nor finished within 20s")
 	}
 }
